@@ -415,6 +415,7 @@ class _LoopTr:
         self.elem_var = elem_var
         self.env, self.bools, self.skip, self.ret = env, bools, set(skip), ret
         self.wraps = wraps or {}                # python target -> format applied to an assigned value (e.g. "(some {})")
+        self.inner_vars = ()                    # loop variables of inner `for y in ys: if c: return e` loops this leaf allows
 
     def tr(self, local):
         t = Tr({}, self.bools)
@@ -478,6 +479,19 @@ class _LoopTr:
                 return self.seq(rest, cur, local)
             c = t.cond(st.test)
             return f"(if {c} then {self.seq(st.body + rest, dict(cur), dict(local))} else {self.seq(st.orelse + rest, dict(cur), dict(local))})"
+        if isinstance(st, ast.For):
+            # an inner loop whose whole body is `if c: return e` (no state): "some element of the inner collection meets c".
+            # The inner collection and the test are given through `env` as terms over `x` (the outer element) and `y` (the inner one).
+            b = st.body
+            if st.orelse or len(b) != 1 or not isinstance(b[0], ast.If) or b[0].orelse or len(b[0].body) != 1 \
+                    or not isinstance(b[0].body[0], ast.Return) or b[0].body[0].value is None or self.ret is None:
+                raise TranslationError("inner loop outside the subset (only `for y in ys: if c: return e`)")
+            if ast.unparse(st.target) not in self.inner_vars:
+                raise TranslationError(f"inner loop variable {ast.unparse(st.target)} not declared for this leaf")
+            it = t.expr(st.iter)
+            c = t.cond(b[0].test)
+            val = (t.cond if self.ret == "Bool" else t.expr)(b[0].body[0].value)
+            return f"(if ({it}).any (fun y => {c}) then {self.ret_tuple(cur, val)} else {self.seq(rest, cur, local)})"
         if isinstance(st, ast.Raise):
             raise TranslationError("raise inside a translated loop")
         target = value = op = None
@@ -584,7 +598,7 @@ def loop(path, qual, contains, name, params, state, elem, env, k=0, bools=(), sk
 
 
 def funloop(path, qual, contains, name, params, state, elem, env, pre=(), fn_ret="Rat", k=0, bools=(), skip=("verbose", "analytics"),
-            ret=None, wraps=None, kinds=None, ret_bool=False):
+            ret=None, wraps=None, kinds=None, ret_bool=False, inner=()):
     """
     A WHOLE function whose body is: initialisations, one `for` loop, a final `return` — nothing else.  Renders the loop
     (`<name>Loop`, as `loop` does) and `<name>` itself: the loop started from the initial values the source assigns, then the
@@ -601,10 +615,12 @@ def funloop(path, qual, contains, name, params, state, elem, env, pre=(), fn_ret
         pre_norm = {_norm_stmt(t) for t in pre}
         lt = _LoopTr(name + "Loop", params, state, elem[0], env, bools, skip, ret, wraps, kinds)
         lt.elem_ty = elem[1]
+        lt.inner_vars = tuple(inner)
         targets = {_norm(py): i for i, (py, _, _) in enumerate(state)}
         init = {}
         loop_node = None
         post = []
+        guards = []  # `if c: return e` statements before the loop, in order
         for st in body:
             src.touch(st)
             if loop_node is None:
@@ -614,6 +630,11 @@ def funloop(path, qual, contains, name, params, state, elem, env, pre=(), fn_ret
                     loop_node = st
                     continue
                 if _norm_stmt(ast.unparse(st)) in pre_norm:
+                    continue
+                if isinstance(st, ast.If) and not st.orelse and len(st.body) == 1 and isinstance(st.body[0], ast.Return) \
+                        and st.body[0].value is not None and not init:
+                    tg = Tr(env, bools)
+                    guards.append((tg.cond(st.test), (tg.cond if ret_bool else tg.expr)(st.body[0].value)))
                     continue
                 tgt = val = None
                 if isinstance(st, ast.Assign) and len(st.targets) == 1:
@@ -651,9 +672,12 @@ def funloop(path, qual, contains, name, params, state, elem, env, pre=(), fn_ret
         t2 = Tr(env2, bools)
         final = (t2.cond if ret_bool else t2.expr)(post[0].value)
         if ret is not None:
-            final = f"(match {proj(0)} with | some v => v | none => {final})"
+            final = f"(Option.getD {proj(0)} {final})"  # the value of the early `return`, else what the function returns after the loop
         ptxt = (params + " " if params else "")
-        fn = f"def {name} {ptxt}(xs : List ({elem[1]})) : {fn_ret} :=\n  (fun r => {final}) ({call})"
+        body_txt = f"(fun r => {final}) ({call})"
+        for gc, gv in reversed(guards):
+            body_txt = f"if {gc} then {gv} else {body_txt}"
+        fn = f"def {name} {ptxt}(xs : List ({elem[1]})) : {fn_ret} :=\n  {body_txt}"
         return RawDef(loop_text + "\n\n" + fn)
     return go
 
@@ -736,6 +760,16 @@ LEAVES = [
     *[("C14", f"upTo{which.capitalize()}{kind}{fam.capitalize()}", "(bound : Rat)", "Rat",
        exprc(JRP, f"is_{kind}_{which}_{fam}", f"{fn}(x, default=0)", {f"{fn}(x, default=0)": "bound"}))
       for kind in ("EJR", "PJR") for fam in ("approval", "cardinal") for which, fn in (("any", "min"), ("one", "max"))],
+    # `is_cohesive_approval` / `is_cohesive_cardinal` as WHOLE functions (statement-level leaves): the two guards, the double loop with its
+    # early `return False`, the final `return True`; `x` = one ballot of the group as the list of its answers for the projects of the set
+    ("C14", "isCohesiveApprovalFn", None, None,
+     funloop(COH, "is_cohesive_approval", "ballots", "isCohesiveApprovalFn", "(large : Bool) (numBallots numProjects : Rat)", [], ("ballot", "List Bool"),
+             {LARGE("ballots", "projects"): "large", "len(ballots)": "numBallots", "len(projects)": "numProjects", "projects": "x", "p not in ballot": "(!y)"},
+             bools=("large", "(!y)"), ret="Bool", fn_ret="Bool", ret_bool=True, inner=("p",))),
+    ("C14", "isCohesiveCardinalFn", None, None,
+     funloop(COH, "is_cohesive_cardinal", "ballots", "isCohesiveCardinalFn", "(large : Bool) (numBallots numProjects : Rat)", [], ("ballot", "List (Rat × Rat)"),
+             {LARGE("ballots", "projects"): "large", "len(ballots)": "numBallots", "len(projects)": "numProjects", "projects": "x", "ballot[p]": "y.1", "alpha[p]": "y.2"},
+             bools=("large",), ret="Bool", fn_ret="Bool", ret_bool=True, inner=("p",))),
     ("C14", "cohApprovalTooSmall", "(large : Bool)", "Bool", test(COH, "is_cohesive_approval", "is_large_enough", {LARGE("ballots", "projects"): "large"}, bools=("large",))),
     ("C14", "cohApprovalEmpty", "(numBallots numProjects : Rat)", "Bool",
      test(COH, "is_cohesive_approval", "len(ballots)", {"len(ballots)": "numBallots", "len(projects)": "numProjects"})),
